@@ -52,15 +52,7 @@ def judge(case, impl, model):
 
 def run(rep, tier, rng):
     core.proof_stage(rep, ID, THEOREMS)
-    with core.Lock():
-        okm, logm = core.build_model()
-        okh, logh = core.build_harness()
-    if not okm:
-        rep.violation({"kind": "model-build-failed", "log": logm[-2000:]}, concrete=False)
-        return
-    if not okh:
-        rep.violation({"kind": "harness-build-failed (implementation no longer builds against the harness)",
-                       "log": logh[-2000:]}, concrete=False)
+    if not core.build_both(rep):
         return
     cases = gen(rng, tier)
     core.diff_stage(rep, "X:C16:time_on_air_us", cases, judge, expand)
